@@ -16,7 +16,9 @@ use serde_json::json;
 pub struct Case {
     /// 0 DynSizedStructure<DummyTestHeader>, 1 DummyDstTag,
     /// 2 DynSizedStructure<TagHeader>, 3 DynSizedStructure<HeaderTagHeader>,
-    /// 4 DynSizedStructure<BootInformationHeader>, 5 DynSizedStructure<Multiboot2BasicHeader>
+    /// 4 DynSizedStructure<BootInformationHeader>, 5 DynSizedStructure<Multiboot2BasicHeader>,
+    /// 6.. tag kinds with a sized part behind the header: ModuleTag, MemoryMapTag,
+    /// SmbiosTag, EFIMemoryMapTag, ElfSectionsTag, FramebufferTag, CommandLineTag
     pub target: u8,
     pub slices: Vec<Hex>,
     pub typ: u32,
@@ -79,16 +81,44 @@ fn check_box<T: MaybeDynSized<Metadata = usize> + ?Sized>(hdr: T::Header, hdr_by
     Ok(())
 }
 
+const TARGETS: usize = 13;
+
 pub fn eval(c: &Case, obs: &mut Obs) -> Result<(), String> {
     let slices: Vec<&[u8]> = c.slices.iter().map(|h| &h.0[..]).collect();
     let total: usize = slices.iter().map(|s| s.len()).sum();
-    if total > 1 << 16 {
+    if total > 1 << 20 {
         return Err("malformed case".into());
     }
     obs.class(format!("slices-{}", slices.len().min(6)));
     if (total + 8) % 8 != 0 || slices.iter().any(|s| s.is_empty()) || slices.len() >= 3 {
         obs.nontrivial(fnv(format!("{}{:?}", c.target, c.slices).as_bytes()));
         obs.sample(json!({"target": c.target, "slice_lengths": slices.iter().map(|s| s.len()).collect::<Vec<_>>()}));
+    }
+    // tag kinds with a sized part: content that cannot form the kind may be
+    // rejected by a panic; whatever is returned must obey the same layout law
+    const KINDS: [u32; 7] = [3, 6, 13, 17, 9, 8, 1];
+    if c.target as usize % TARGETS >= 6 {
+        let kind = KINDS[c.target as usize % TARGETS - 6];
+        let fits = mb2_model::expect_mbi::cast_succeeds(kind, 8 + total);
+        let mut hb = vec![0u8; 8];
+        put32(&mut hb, 0, kind);
+        let hd = || m::TagHeader::new(m::TagType::from(kind), 0);
+        let r = mb2_model::panics::catch(|| match kind {
+            3 => check_box::<m::ModuleTag>(hd(), &hb, 4, &slices),
+            6 => check_box::<m::MemoryMapTag>(hd(), &hb, 4, &slices),
+            13 => check_box::<m::SmbiosTag>(hd(), &hb, 4, &slices),
+            17 => check_box::<m::EFIMemoryMapTag>(hd(), &hb, 4, &slices),
+            9 => check_box::<m::ElfSectionsTag>(hd(), &hb, 4, &slices),
+            8 => check_box::<m::FramebufferTag>(hd(), &hb, 4, &slices),
+            _ => check_box::<m::CommandLineTag>(hd(), &hb, 4, &slices),
+        });
+        obs.class(if fits { "kind-fits" } else { "kind-misfit" });
+        let lens = slices.iter().map(|s| s.len()).collect::<Vec<_>>();
+        return match r {
+            Some(r) => r.map_err(|m| format!("tag kind {kind} slices {lens:?}: {m}")),
+            None if fits => Err(format!("tag kind {kind} slices {lens:?}: content of {total} bytes forms the kind, yet new_boxed/clone_dyn panicked")),
+            None => Ok(()),
+        };
     }
     let r = mb2_model::panics::catch(|| match c.target % 6 {
         0 => {
@@ -157,7 +187,7 @@ fn enumerate(ctx: &Ctx) -> Box<dyn Iterator<Item = Case>> {
         }
     }
     let it = comps.into_iter().enumerate().flat_map(|(i, lens)| {
-        (0..6u8).map(move |target| {
+        (0..TARGETS as u8).map(move |target| {
             let mut off = 0;
             let slices = lens
                 .iter()
@@ -174,7 +204,14 @@ fn enumerate(ctx: &Ctx) -> Box<dyn Iterator<Item = Case>> {
 }
 
 fn strategy(_: &Ctx) -> BoxedStrategy<Case> {
-    (0u8..6, proptest::collection::vec(proptest::collection::vec(any::<u8>(), 0..=60), 0..=6), any::<u32>())
+    // mostly short slices; sometimes one long enough to cross the 4096/8192/65536-byte marks
+    let slice = prop_oneof![
+        20 => proptest::collection::vec(any::<u8>(), 0..=60),
+        1 => (3900usize..4300, any::<u8>()).prop_map(|(n, b)| (0..n).map(|i| b.wrapping_add(i as u8)).collect::<Vec<u8>>()),
+        1 => (8000usize..8400, any::<u8>()).prop_map(|(n, b)| (0..n).map(|i| b.wrapping_add(i as u8)).collect::<Vec<u8>>()),
+        1 => (65000usize..65500, any::<u8>()).prop_map(|(n, b)| (0..n).map(|i| b.wrapping_add(i as u8)).collect::<Vec<u8>>()),
+    ];
+    (0u8..TARGETS as u8, proptest::collection::vec(slice, 0..=6), any::<u32>())
         .prop_map(|(target, s, typ)| Case { target, slices: s.into_iter().map(Hex).collect(), typ })
         .boxed()
 }
@@ -249,7 +286,7 @@ pub fn subs() -> Vec<Box<dyn Sub>> {
     vec![
         Box::new(PropSub::<Case> {
             name: "new_boxed",
-            rule: "new_boxed::<T>(header, slices) for T in {DynSizedStructure<DummyTestHeader>, DummyDstTag, DynSizedStructure<TagHeader>, DynSizedStructure<HeaderTagHeader>, DynSizedStructure<BootInformationHeader>, DynSizedStructure<Multiboot2BasicHeader>} under a recording global allocator. Enumerated completely: every composition of total length 0..=12 (thorough 17) into 0..=4 slices (empty slices allowed) x 6 targets; generated: up to 6 slices of up to 60 random bytes. Oracle: exactly one alloc(size = r8(header + sum), align 8) whose pointer is the Box; header size word == header + sum; bytes after the header == concatenation; size_of_val == r8(total); clone_dyn equal up to the size with one allocation of the same layout; drop = exactly one dealloc with the same pointer and layout (for the box and for the clone). Non-trivial = total not a multiple of 8, an empty slice, or >=3 slices; distinct by (target, slices)",
+            rule: "new_boxed::<T>(header, slices) for T in {DynSizedStructure<DummyTestHeader>, DummyDstTag, DynSizedStructure<TagHeader>, DynSizedStructure<HeaderTagHeader>, DynSizedStructure<BootInformationHeader>, DynSizedStructure<Multiboot2BasicHeader>, and the tag kinds with a sized part behind the header ModuleTag, MemoryMapTag, SmbiosTag, EFIMemoryMapTag, ElfSectionsTag, FramebufferTag, CommandLineTag (content that cannot form the kind may be rejected by a panic; anything returned obeys the same law)} under a recording global allocator. Enumerated completely: every composition of total length 0..=12 (thorough 17) into 0..=4 slices (empty slices allowed) x 13 targets; generated: up to 6 slices of up to 60 random bytes, sometimes one of ~4 KiB, ~8 KiB or ~64 KiB (structures across the page / 16-bit marks). Oracle: exactly one alloc(size = r8(header + sum), align 8) whose pointer is the Box; header size word == header + sum; bytes after the header == concatenation; size_of_val == r8(total); clone_dyn equal up to the size with one allocation of the same layout; drop = exactly one dealloc with the same pointer and layout (for the box and for the clone). Non-trivial = total not a multiple of 8, an empty slice, or >=3 slices; distinct by (target, slices)",
             profiles: Profiles::Both,
             quick: 30000,
             thorough: 2000000,
